@@ -65,7 +65,8 @@ TARGETS = {
             "insertInline_valid_of_norm", "replace_valid_of_inv_of_norm", "insertInline_valid", "replace_valid_of_inv",
             "fit_emits_valid_payload", "payloadInv_step_gen", "fit_emits_valid_payload_cut", "fit_replace_recorded_valid",
             "delete_recorded_valid", "fit_no_raise_partial", "fit_raise_sites",
-            "trivialFit_delete_applies", "delete_applies_flat", "delete_never_raises_flat"],
+            "trivialFit_delete_applies", "delete_applies_flat", "delete_never_raises_flat",
+            "fit_step_returns", "startSite_exact", "fit_no_raise_while", "fit_no_raise", "fit_no_raise_emits", "fit_raises_only_at_sites"],
     "C12": ["canJoin_join_applies", "liftTarget_lift_applies_flat", "liftTarget_lift_applies", "insertPoint_insert_applies",
             "dropPoint_drop_applies_closed", "joinPoint_join_applies", "insertPoint_insert_text_applies",
             "insertPoint_insert_marked_top"],
@@ -188,7 +189,7 @@ def gen(prop):
                     concl = re.sub(r"\bdfas\b", "(S.nodes.toList.map (·.dfa))", concl)
                 continue
             if hit is not None:
-                if "family_textStable" in hit:
+                if "family_textStable _" in hit:
                     used_dom = True
                 args += [hit] * len(names)
                 continue
